@@ -22,6 +22,21 @@ fn pick(v: &[VehicleIdx], k: &serde_json::Value) -> Option<VehicleIdx> {
     }
 }
 
+fn pick3(all: &[VehicleIdx], real: &[VehicleIdx], dummies: &[VehicleIdx], k: &serde_json::Value) -> Option<VehicleIdx> {
+    let n = k.as_u64().unwrap();
+    if n >= 4000 {
+        dummies.iter().max().copied() // the newest dummy tour
+    } else if n >= 3000 {
+        real.iter().max().copied() // the newest real vehicle
+    } else if n >= 2000 {
+        pick(real, &serde_json::json!(n - 2000))
+    } else if n >= 1000 {
+        pick(dummies, &serde_json::json!(n - 1000))
+    } else {
+        pick(all, k)
+    }
+}
+
 /// segment (node at position i mod len, node at position min(i + delta, len - 1)); None if it holds only depots
 fn segment_at(s: &Schedule, v: VehicleIdx, i: &serde_json::Value, delta: &serde_json::Value) -> Option<(NodeIdx, NodeIdx)> {
     let t = s.tour_of(v).unwrap();
@@ -83,7 +98,7 @@ pub fn run(case: &serde_json::Value, out: &mut String) {
                         }
                     }
                 },
-                "delete" => match pick(&all, &op[1]) {
+                "delete" => match pick3(&all, &real, &dummies, &op[1]) {
                     None => Outcome::Skip,
                     Some(v) => {
                         desc = vid(v);
@@ -129,7 +144,8 @@ pub fn run(case: &serde_json::Value, out: &mut String) {
                         }
                     },
                 },
-                "fit" | "override" => match (pick(&all, &op[1]), pick(&all, &op[4])) {
+                // vehicle arguments >= 2000 pick among the real vehicles, >= 1000 among the dummy tours, else among all
+                "fit" | "override" => match (pick3(&all, &real, &dummies, &op[1]), pick3(&all, &real, &dummies, &op[4])) {
                     (Some(p), Some(r)) if segment_at(&s, p, &op[2], &op[3]).is_some() => {
                         let (a, b) = segment_at(&s, p, &op[2], &op[3]).unwrap();
                         desc = format!("{} {} {} {}", vid(p), nid(a), nid(b), vid(r));
